@@ -46,6 +46,7 @@ func (w *World) runMonitors() {
 	w.monTerminate(h)
 	w.monTakeover(h)
 	w.monResendOrder(h)
+	w.monMissing(h)
 }
 
 // C15: packets retransmitted after a resume go out in the order of their original transmission
@@ -729,6 +730,252 @@ func (w *World) monTakeover(h []ev) {
 				}
 				live[id] = e.conn
 			}
+		}
+	}
+}
+
+// C06 / C08 / C11: nothing that had to be delivered is missing.  Deliberately conservative — an expectation is only
+// raised where the outcome is unambiguous at quiescence granularity:
+//   * the message was handed to the backend (bpublish) exactly once under its payload tag, on a wildcard-free topic;
+//   * the session held, at that moment, a valid filter matching the topic (the monitor's own bookkeeping, independent
+//     4.7 matcher), and its connection was accepted and alive (live delivery), or the session is persistent and the
+//     message was published at QoS >= 1 (stored queue);
+//   * the session was not discarded afterwards (no later fresh Setup), the connection that holds it when the script
+//     ends is alive, was never held up, and its peer acknowledged everything it received (finish() flushes), so no
+//     window slot and no queue capacity can explain a missing delivery.
+// Retained replay: every retained message whose topic matches a filter of an accepted SUBSCRIBE must reach that
+// connection afterwards, flagged retained, under the same conditions.
+func (w *World) monMissing(h []ev) {
+	if w.queue < 100 {
+		return
+	}
+	fin := -1
+	for i, e := range h {
+		if e.kind == "finish" {
+			fin = i
+		}
+	}
+	if fin < 0 {
+		return
+	}
+	validFilter := func(f string) bool {
+		if f == "" {
+			return false
+		}
+		ls := strings.Split(f, "/")
+		for i, l := range ls {
+			if strings.Contains(l, "#") && (l != "#" || i != len(ls)-1) {
+				return false
+			}
+			if strings.Contains(l, "+") && l != "+" {
+				return false
+			}
+		}
+		return !strings.Contains(f, "\x00")
+	}
+	validName := func(t string) bool { return t != "" && !strings.ContainsAny(t, "+#\x00") }
+	key := func(c int) string {
+		p := w.peers[c]
+		if p == nil || p.clientID == "" || p.clean {
+			return fmt.Sprintf("conn%d", c)
+		}
+		return "id:" + p.clientID
+	}
+	persistent := func(k string) bool { return strings.HasPrefix(k, "id:") }
+	handed := map[string]int{}
+	for _, e := range h {
+		if e.kind == "bpublish" {
+			if p, ok := e.pkt.(*packet.Publish); ok {
+				handed[string(p.Message.Payload)]++
+			}
+		}
+	}
+	type expect struct {
+		k      string
+		tag    string
+		from   int
+		conn   int  // connection holding the session when the expectation arose (0: offline)
+		live   bool // must reach exactly `conn` (QoS 0 class or temporary session)
+		retain bool
+		what   string
+		qos    packet.QOS // published QoS
+		grant  packet.QOS // lowest grant among the matching filters when the message was published
+		topic  string
+	}
+	var exps []expect
+	subChange := map[string][]struct {
+		at     int
+		filter string
+	}{}
+	subs := map[string]map[string]packet.QOS{}
+	holder := map[string]int{}   // session key -> connection currently holding it (accepted, not closed)
+	accepted := map[int]bool{}
+	dead := map[int]bool{}
+	heldUp := map[int]bool{}
+	discarded := map[string]int{} // session key -> index of the last fresh Setup
+	type ret struct {
+		tag string
+	}
+	retained := map[string]ret{}
+	for i, e := range h[:fin] {
+		switch e.kind {
+		case "stall":
+			heldUp[e.conn] = true
+		case "closed":
+			dead[e.conn] = true
+			for k, c := range holder {
+				if c == e.conn {
+					delete(holder, k)
+				}
+			}
+		case "setup":
+			k := key(e.conn)
+			if e.txt == "0" {
+				delete(subs, k)
+				discarded[k] = i
+			}
+		case "sent":
+			if p, ok := e.pkt.(*packet.Connack); ok && p.ReturnCode == packet.ConnectionAccepted {
+				accepted[e.conn] = true
+				holder[key(e.conn)] = e.conn
+			}
+		case "stim-send":
+			if dead[e.conn] || !accepted[e.conn] {
+				continue
+			}
+			k := key(e.conn)
+			switch p := e.pkt.(type) {
+			case *packet.Subscribe:
+				if subs[k] == nil {
+					subs[k] = map[string]packet.QOS{}
+				}
+				for _, s := range p.Subscriptions {
+					subs[k][s.Topic] = s.QOS
+					subChange[k] = append(subChange[k], struct {
+						at     int
+						filter string
+					}{i, s.Topic})
+					if !validFilter(s.Topic) {
+						continue
+					}
+					for t, r := range retained {
+						if tmatch(s.Topic, t) && handed[r.tag] == 1 {
+							exps = append(exps, expect{k: k, tag: r.tag, from: i, conn: e.conn, live: true, retain: true,
+								what: fmt.Sprintf("retained message %q on %q matches filter %q of the SUBSCRIBE on connection %d", r.tag, t, s.Topic, e.conn)})
+						}
+					}
+				}
+			case *packet.Unsubscribe:
+				for _, t := range p.Topics {
+					delete(subs[k], t)
+					subChange[k] = append(subChange[k], struct {
+						at     int
+						filter string
+					}{i, t})
+				}
+			}
+		case "bpublish":
+			p, ok := e.pkt.(*packet.Publish)
+			if !ok {
+				continue
+			}
+			m := p.Message
+			tag := string(m.Payload)
+			if m.Retain && validName(m.Topic) {
+				if len(m.Payload) == 0 {
+					delete(retained, m.Topic)
+				} else {
+					retained[m.Topic] = ret{tag}
+				}
+			}
+			if tag == "" || handed[tag] != 1 || !validName(m.Topic) {
+				continue
+			}
+			for k, fs := range subs {
+				match := ""
+				grant := packet.QOS(2)
+				for f, g := range fs {
+					if validFilter(f) && tmatch(f, m.Topic) {
+						match = f
+						if g < grant {
+							grant = g
+						}
+					}
+				}
+				if match == "" {
+					continue
+				}
+				c := holder[k]
+				if dead[c] {
+					c = 0
+				}
+				exps = append(exps, expect{k: k, tag: tag, from: i, conn: c, qos: m.QOS, grant: grant, topic: m.Topic,
+					what: fmt.Sprintf("QoS %d message %q published on %q while session %s (connection %d, 0 = offline) held a subscription to %q", m.QOS, tag, m.Topic, k, c, match)})
+			}
+		}
+	}
+	wellBehaved := func(c int) bool {
+		p := w.peers[c]
+		return c != 0 && !dead[c] && !heldUp[c] && p != nil && len(p.unacked) == 0
+	}
+	for _, x := range exps {
+		if d, ok := discarded[x.k]; ok && d > x.from {
+			continue
+		}
+		var target int
+		switch {
+		case x.retain:
+			target = x.conn
+		case x.conn != 0 && wellBehaved(x.conn):
+			// the connection that held the subscription lived on to the end: it must have got the message, whatever the QoS
+			x.live = true
+			target = x.conn
+		case persistent(x.k) && x.qos > 0 && x.grant > 0:
+			// recorded for a persistent session at a delivery QoS >= 1: some connection of the session must get it, provided
+			// the subscriptions that decide the delivery QoS did not change afterwards
+			changed := false
+			for _, ch := range subChange[x.k] {
+				if ch.at > x.from && (ch.filter == "" || !validFilter(ch.filter) || tmatch(ch.filter, x.topic)) {
+					changed = true
+				}
+			}
+			if changed {
+				continue
+			}
+			target = holder[x.k]
+		default:
+			continue
+		}
+		if !wellBehaved(target) {
+			continue
+		}
+		found := false
+		for _, e := range h[x.from:] {
+			if e.kind != "sent" && e.kind != "sendfail" {
+				continue
+			}
+			p, ok := e.pkt.(*packet.Publish)
+			if !ok || string(p.Message.Payload) != x.tag {
+				continue
+			}
+			if x.live && e.conn != x.conn {
+				continue
+			}
+			if !x.live && key(e.conn) != x.k {
+				continue
+			}
+			if x.retain && !p.Message.Retain {
+				continue
+			}
+			found = true
+			break
+		}
+		if !found {
+			kind := "delivery-missing"
+			if x.retain {
+				kind = "retained-missing"
+			}
+			w.hit(kind, x.what+": never sent although the receiving connection stayed alive and acknowledged everything")
 		}
 	}
 }
